@@ -581,11 +581,69 @@ def h_key_mismatch(ctx):
     return Outcome("|".join(sorted(set(bs))), vs, nontrivial=(family, cls, held, pub_only, str(tok)[:60]), n=len(bs))
 
 
+# ------------------------------------------------------------------ header members nested to depths between "trivial" and "the parser gives up"
+DEPTHS = [40, 200, 400, 480, 520, 700, 900, 990, 1010, 1200, 1450, 1600, 3000]
+
+
+def h_nested(ctx):
+    """A validly signed / authenticated token whose header carries one value nested d levels deep, for depths on both sides of every
+    recursion limit in reach (the interpreter's, the JSON parser's), x how the application holds its key (a callable sees the object)."""
+    from joserfc import jws, jwe, jwt
+    family = ctx.choose("family", ["jws-compact", "jws-flattened-unprotected", "jwe-compact", "jwe-flattened-unprotected"])
+    d = ctx.choose("depth", DEPTHS)
+    shape = ctx.choose("shape", ["list", "object"])
+    member = ctx.choose("member", ["foo", "jwk", "kid"])
+    text = ("[" * d + "]" * d) if shape == "list" else ('{"a":' * d + "1" + "}" * d)
+    strict = ctx.choose("strict_check_header", [True, False])
+    vs, bs = [], []
+    what = f"{family}: header member {member} nested {d} levels ({shape}), strict={strict}"
+    cls = f"header member nested {'<500' if d < 500 else ('<1000' if d < 1000 else '>=1000')} levels ({shape})"
+    if family.startswith("jws"):
+        alg, kind = "HS256", "oct32"
+        jwk = scen.key(kind)
+        key = holder(ctx, jwk, private=True, kind=kind)
+        reg = jws.JWSRegistry(algorithms=[alg], strict_check_header=strict)
+        if family == "jws-compact":
+            tok = build_jws(alg, kind, "compact", None, None, CLAIMS, prot_text='{"alg":"HS256","%s":%s}' % (member, text))
+            eps = [("jws.deserialize_compact", lambda: jws.deserialize_compact(tok, key, registry=reg)), ("jwt.decode", lambda: jwt.decode(tok, key, registry=reg))]
+        else:
+            try:
+                v = json.loads(text)
+            except RecursionError:
+                return Outcome("caller-cannot-parse", [], nontrivial=None)
+            tok = build_jws(alg, kind, "flattened", {"alg": alg}, {member: v}, CLAIMS)
+            eps = [("jws.deserialize_json", lambda: jws.deserialize_json(tok, key, registry=reg))]
+    else:
+        alg, kind, enc = "dir", "oct16", "A128GCM"
+        jwk = scen.key(kind)
+        key = holder(ctx, jwk, private=True, kind=kind)
+        reg = jwe.JWERegistry(algorithms=[alg, enc], strict_check_header=strict)
+        if family == "jwe-compact":
+            t = jwe_seed(alg, kind, enc, "compact")
+            tok = jwe_wire(t, "compact", prot_text='{"alg":"dir","enc":"A128GCM","%s":%s}' % (member, text))
+            eps = [("jwe.decrypt_compact", lambda: jwe.decrypt_compact(tok, key, registry=reg)), ("jwt.decode[JWE]", lambda: jwt.decode(tok, key, registry=reg))]
+        else:
+            try:
+                v = json.loads(text)
+            except RecursionError:
+                return Outcome("caller-cannot-parse", [], nontrivial=None)
+            t = jwe_seed(alg, kind, enc, "flattened")
+            t["unprotected"] = {member: v}
+            tok = jwe_wire(t, "flattened")
+            eps = [("jwe.decrypt_json", lambda: jwe.decrypt_json(tok, key, registry=reg))]
+    for ename, ep in eps:
+        b, v1 = judge(ename, call(ep), what, cls)
+        bs.append(b)
+        vs += v1
+    return Outcome("|".join(sorted(set(bs))), vs, nontrivial=(what, repr(ctx.choices)), n=len(bs))
+
+
 PARTS = [
     Part("key-mismatch", h_key_mismatch, split_depth=3),
     Part("jws-header-values", h_jws_header, bound={"quick": 1, "thorough": 1}, split_depth=3),
     Part("jwe-header-values", h_jwe_header, bound={"quick": 1, "thorough": 1}, split_depth=3),
     Part("compact-segments", h_segments, bound={"quick": 1, "thorough": 1}, split_depth=2),
     Part("inner-data", h_inner, split_depth=2),
+    Part("nested-header-values", h_nested, split_depth=2),
     Part("json-shapes", h_json_shapes, bound={"quick": 1, "thorough": 1}, split_depth=3),
 ]
